@@ -7,3 +7,30 @@ from engine_c09 import engine_C09, engine_C05, engine_C11, engine_C13, engine_C1
 def run(pid, tier, seed, ctx):
     f = globals().get("engine_" + pid)
     return f(tier, seed, ctx) if f else None
+
+
+def engine_C17(tier, seed, ctx):
+    """counting global allocator: teardown returns everything, memory is flat under handle/stream churn"""
+    cases = 400 if tier == "quick" else 4000
+    cycles = 20000 if tier == "quick" else 100000
+    rc, out = ctx["sh"](f"{ctx['HBIN']} alloc --seed {seed} --cases {cases} --cycles {cycles}", cwd=ctx["VERIF"], timeout=3000)
+    viol = []
+    mons = [l for l in out.splitlines() if l.startswith("MONITOR property=C17")]
+    if rc != 0 and not mons:
+        path = ctx["write_replay_note"]("C17", "alloc-engine", "the allocation engine failed:\n" + out[-2000:])
+        viol.append((path, "allocation engine failed", True))
+    if mons:
+        path = ctx["write_replay_note"]("C17", "alloc", "mqharness alloc --seed %d --cases %d --cycles %d\n" % (seed, cases, cycles) + "\n".join(mons[:20]))
+        viol.append((path, mons[0][len("MONITOR property=C17 :: "):], False))
+    samples = [l[7:] for l in out.splitlines() if l.startswith("SAMPLE ")]
+    m1 = re.search(r"teardown cases=(\d+) leaking=(\d+)", out)
+    m2 = re.search(r"churn runs=(\d+) cycles=(\d+)", out)
+    cov = {
+        "alloc_teardown_histories": int(m1.group(1)) if m1 else 0,
+        "alloc_teardown_leaking": int(m1.group(2)) if m1 else -1,
+        "alloc_churn_runs": int(m2.group(1)) if m2 else 0,
+        "alloc_churn_cycles_each": int(m2.group(2)) if m2 else 0,
+        "alloc_samples": samples,
+        "alloc_rule": "counting #[global_allocator] in the harness: (a) random histories on all four queue kinds x capacities 0..9, every handle dropped in a random order, live heap must return to the level before creation; (b) 4 kinds of handle/stream churn x handles operating every 1/4/16/64 cycles x with/without an early drop of a non-last handle: live bytes after warm-up vs after 10x more cycles must not differ by more than 16 KiB, and teardown returns everything",
+    }
+    return {"coverage": cov, "violations": viol, "known": []}
